@@ -58,6 +58,19 @@ func TestVerif_C16(t *testing.T) {
 	rounds := r.N(120, 6000)
 	delivered, finalizedCount, notFinal := 0, 0, 0
 
+	// what the finalized ledger still admits of an asset (deposits are sized against it, so that the workload keeps
+	// validating deposits for its whole length instead of filling an asset early and being refused from then on)
+	remaining := func(asset crypto.Hash) *big.Int {
+		_, bal, _ := f.node.persistStore.ReadAssetWithBalance(asset)
+		rem := new(big.Int).Sub(vC16Capacity(asset), verifgen.UnitsOf(bal))
+		if asset == common.XINAssetId { // the pledge funded at the end needs room
+			rem.Sub(rem, verifgen.UnitsOf(common.KernelNodePledgeAmount.Mul(2)))
+		}
+		if rem.Sign() < 0 {
+			rem.SetInt64(0)
+		}
+		return rem
+	}
 	mkDeposit := func() (*common.VersionedTransaction, []verifgen.OutSpec, *vC16DepositInfo, string) {
 		a := assets[rng.Intn(len(assets))]
 		kind := "deposit"
@@ -69,8 +82,8 @@ func TestVerif_C16(t *testing.T) {
 				units = big.NewInt(int64(1 + rng.Intn(1e9)))
 			} else {
 				div := int64(3 + rng.Intn(6))
-				units = new(big.Int).Div(capU, big.NewInt(div))
-				units.Add(units, big.NewInt(int64(rng.Intn(1000))))
+				units = new(big.Int).Div(remaining(a.Id), big.NewInt(div))
+				units.Add(units, big.NewInt(int64(1+rng.Intn(1000))))
 			}
 			kind = "deposit-large"
 		case 4: // first deposit of a fresh asset, sometimes absurdly large
@@ -90,7 +103,10 @@ func TestVerif_C16(t *testing.T) {
 				units = new(big.Int).Add(capU, big.NewInt(int64(rng.Intn(3))))
 				units.Sub(units, big.NewInt(1))
 			} else {
-				units = new(big.Int).Add(capU, big.NewInt(int64(rng.Intn(3)-1)))
+				units = new(big.Int).Add(remaining(a.Id), big.NewInt(int64(rng.Intn(3)-1)))
+				if units.Sign() <= 0 {
+					units.SetInt64(1)
+				}
 			}
 			kind = "deposit-at-capacity"
 		case 6: // a known asset named with another letter case of its key (same id, same chain)
@@ -126,6 +142,11 @@ func TestVerif_C16(t *testing.T) {
 		case 9:
 			shape, k = "fresh-asset-different-chain-data", 2
 		}
+		// regularly: a withdrawal submission stays pending on one chain while another chain's snapshot claims it
+		claimShape := round%8 == 6
+		if claimShape && k < 2 {
+			k = 2
+		}
 		perm := rng.Perm(len(f.net.NodeIds))[:k]
 		if rng.Intn(2) == 0 { // the replica's own chain takes part in half of the rounds (proposer path)
 			own := false
@@ -154,18 +175,18 @@ func TestVerif_C16(t *testing.T) {
 			}
 			forced = &a
 		}
-		for _, ci := range perm {
+		for pi, ci := range perm {
 			chainId := f.net.NodeIds[ci]
 			p := &vC16Pending{specs: map[crypto.Hash][]verifgen.OutSpec{}}
 			nb := 1
 			if rng.Intn(3) == 0 {
 				nb = 2 + rng.Intn(3)
 			}
-			if shape != "" {
+			if shape != "" || claimShape && pi == 0 {
 				nb = 1
 			}
 			// a withdrawal claim: references a finalized submission, or one that is only pending in this round
-			if shape == "" && rng.Intn(5) == 0 && len(roundSubmits)+len(finalSubmits) > 0 {
+			if shape == "" && (rng.Intn(5) == 0 || claimShape && pi > 0) && len(roundSubmits)+len(finalSubmits) > 0 {
 				var in *verifgen.Out
 				for _, o := range w.Outs {
 					if o.Asset == common.XINAssetId && verifgen.UnitsOf(o.Amount).Cmp(big.NewInt(20000)) > 0 {
@@ -176,7 +197,7 @@ func TestVerif_C16(t *testing.T) {
 				if in != nil {
 					var submit crypto.Hash
 					kind := "withdrawal-claim"
-					if len(roundSubmits) > 0 && (len(finalSubmits) == 0 || rng.Intn(2) == 0) {
+					if len(roundSubmits) > 0 && (len(finalSubmits) == 0 || rng.Intn(2) == 0 || claimShape) {
 						submit = roundSubmits[rng.Intn(len(roundSubmits))]
 						kind = "withdrawal-claim-of-pending-submission"
 					} else {
@@ -197,14 +218,15 @@ func TestVerif_C16(t *testing.T) {
 				var tx *common.VersionedTransaction
 				var specs []verifgen.OutSpec
 				kind := ""
-				if p.deposit == nil && (len(w.Outs) < 4 || rng.Intn(2) == 0 || forced != nil) {
+				if p.deposit == nil && (len(w.Outs) < 4 || rng.Intn(2) == 0 || forced != nil) && !(claimShape && pi == 0 && len(w.Outs) >= 4) {
 					var info *vC16DepositInfo
 					if forced != nil {
-						capU := vC16Capacity(forced.Id)
-						units := new(big.Int).Div(capU, big.NewInt(int64(3+rng.Intn(9))))
-						if shape == "half-capacity-each" {
-							units = new(big.Int).Div(capU, big.NewInt(2))
+						rem := remaining(forced.Id)
+						units := new(big.Int).Div(rem, big.NewInt(int64(2+rng.Intn(5))))
+						if shape == "half-capacity-each" { // half of what is left, plus one
+							units = new(big.Int).Div(rem, big.NewInt(2))
 						}
+						units.Add(units, big.NewInt(1))
 						fa := *forced
 						kind = "deposit-same-asset"
 						if conflictInfo {
@@ -224,7 +246,7 @@ func TestVerif_C16(t *testing.T) {
 					if forced {
 						tx, specs, ins = w.TransferWithdrawal(1+rng.Intn(2), 3, true)
 						kind = "withdrawal"
-					} else if rng.Intn(5) == 0 {
+					} else if rng.Intn(5) == 0 || claimShape && pi == 0 {
 						tx, specs, ins = w.TransferWithdrawal(1+rng.Intn(3), 1+rng.Intn(3), true)
 						kind = "withdrawal"
 					} else {
@@ -236,7 +258,7 @@ func TestVerif_C16(t *testing.T) {
 					}
 					// hostile shape: one of the later outputs gets a special output type (usually refused by validation;
 					// whatever validation lets through must finalize)
-					if len(specs) >= 2 && (forced || rng.Intn(10) == 0 || kind == "withdrawal" && len(specs) >= 3 && rng.Intn(2) == 0) {
+					if !(claimShape && pi == 0) && len(specs) >= 2 && (forced || rng.Intn(10) == 0 || kind == "withdrawal" && len(specs) >= 3 && rng.Intn(2) == 0) {
 						special := []uint8{common.OutputTypeWithdrawalClaim, common.OutputTypeWithdrawalClaim, common.OutputTypeWithdrawalSubmit, common.OutputTypeNodePledge,
 							common.OutputTypeNodeAccept, common.OutputTypeNodeCancel}
 						ms := append([]verifgen.OutSpec{}, specs...)
@@ -494,6 +516,77 @@ func TestVerif_C16(t *testing.T) {
 			}
 		}
 	}
+	// 4. a consensus operation stamped with exactly the timestamp of the last recorded one (a node pledge at the instant
+	// of a custodian update, on the chain elected for pledges at that instant): if the node's validation lets it
+	// through, it must be finalizable
+	func() {
+		ts := f.atHour(21+rng.Intn(2), 40*time.Minute)
+		payChain := f.net.NodeIds[rng.Intn(len(f.net.NodeIds))]
+		xin := verifgen.Assets()[0]
+		cand := verifgen.NewCandidate(fmt.Sprintf("%s:cand-equal", f.net.Label))
+		spec := verifgen.OutSpec{Type: common.OutputTypeScript, Owners: []common.Address{cand.Funder}, Threshold: 1, Amount: common.KernelNodePledgeAmount, Seed: w.Seed()}
+		dep := verifgen.Deposit(w.Custodian, xin.Id, xin.Chain, xin.Key, fmt.Sprintf("0xpledge-equal-%s", f.net.Label), 0, common.KernelNodePledgeAmount, spec)
+		if _, dd := f.feedBatch(payChain, []*common.VersionedTransaction{dep}, ts); !dd.Finalized {
+			r.Count("equal_timestamp_funding_not_finalized", 1)
+			return
+		}
+		nc := verifgen.Addr(fmt.Sprintf("%s:cust-equal", f.net.Label))
+		cuChain, cuTx, err := f.buildCustodianUpdate(w, ts, &nc, payChain)
+		var d verifDelivery
+		if err == nil {
+			_, d = f.feedBatch(cuChain, []*common.VersionedTransaction{cuTx}, f.tick(uint64(time.Second)))
+		}
+		if err != nil || !d.Finalized {
+			r.Count("equal_timestamp_first_operation_not_finalized", 1)
+			t.Logf("equal timestamp: custodian update: %v %v %v", err, d.Err, d.PanicVal)
+			return
+		}
+		w.Custodian = &nc
+		last, _ := f.node.persistStore.ReadLastConsensusSnapshot()
+		funding := verifgen.OutsOf(dep, []verifgen.OutSpec{spec})[0]
+		ptx := verifgen.Pledge(cand, funding, []crypto.Hash{last.Transactions[0]})
+		pc := f.node.electSnapshotNode(common.TransactionTypeNodePledge, last.Timestamp)
+		if pc == cuChain { // that chain already holds a snapshot at this very instant
+			r.Count("equal_timestamp_same_chain_elected", 1)
+			return
+		}
+		snap, err := f.nextSnapshot(pc, []crypto.Hash{ptx.PayloadHash()}, last.Timestamp)
+		if err != nil {
+			r.Count("equal_timestamp_snapshot_not_buildable", 1)
+			t.Logf("equal timestamp: snapshot: %v", err)
+			return
+		}
+		_ = f.node.persistStore.CacheStoreTransaction(ptx)
+		var verr error
+		var missing []crypto.Hash
+		panicked, _, _ := verifkit.Guard(func() { _, missing, verr = f.node.validateSnapshotTransaction(snap, false) })
+		r.Eval()
+		if panicked || verr != nil || len(missing) > 0 {
+			r.Count("equal_timestamp_operation_rejected_by_validation", 1)
+			t.Logf("equal timestamp pledge rejected: %v", verr)
+			return
+		}
+		if _, err := f.sign(snap, 0); err != nil {
+			r.Count("sign_errors", 1)
+			return
+		}
+		r.Count("equal_timestamp_operation_validated", 1)
+		delivered++
+		r.Nontrivial(snap.Hash.String())
+		d = f.deliver(snap, []*common.VersionedTransaction{ptx})
+		if d.Panicked || d.Err != nil {
+			site, msg := "error", fmt.Sprint(d.Err)
+			if d.Panicked {
+				site, msg = verifkit.PanicSite(d.Stack), fmt.Sprint(d.PanicVal)
+			}
+			r.Violation("C16|"+site+"|consensus-operation-at-the-timestamp-of-the-last-one",
+				fmt.Sprintf("a consensus operation stamped exactly like the last recorded one passed the node's validation and failed to finalize (%s): %s", site, msg),
+				map[string]any{"site": site, "message": msg, "timestamp": last.Timestamp})
+			if err := f.restart(); err != nil {
+				t.Fatalf("restart after failed finalization: %v", err)
+			}
+		}
+	}()
 	r.Note("snapshots_delivered", delivered)
 	r.Note("snapshots_finalized", finalizedCount)
 	r.Note("topology_at_end", f.node.TopologicalOrder())
@@ -535,7 +628,8 @@ func vC16Wide(f *verifFeed, w *verifgen.Wallet, nTx, outs, keys int, tag string)
 		vC16OwnerCache = append(vC16OwnerCache, verifgen.Addr(fmt.Sprintf("c16-owner-%d", len(vC16OwnerCache))))
 	}
 	owners := vC16OwnerCache[:keys]
-	btc := verifgen.Assets()[1]
+	// an asset of its own, whatever the workload before left of the capacities of the others
+	btc := verifgen.AssetInfo{Id: crypto.Sha256Hash([]byte("verif-c16-wide-asset")), Chain: common.EthereumAssetId, Key: "0x2222222222222222222222222222222222222222"}
 	txs := make([]*common.VersionedTransaction, nTx)
 	specs := make([][]verifgen.OutSpec, nTx)
 	for i := 0; i < nTx; i++ {
